@@ -16,7 +16,8 @@ STRATA = [
     ("uf-exhaustive", 1, 1),
     ("ft-exhaustive", 1, 1),
 ]
-REQUIRED_EVENTS = {"any": ["uf.post.union", "uf.post.find", "uf.inv.forest", "ft.post.update", "ft.post.prefix"]}
+REQUIRED_EVENTS = {"any": ["uf.post.union", "uf.post.find", "uf.inv.forest", "ft.post.update", "ft.post.prefix",
+                           "ft.caller-list-scribbled"]}
 
 _ds = None
 _mon = None
@@ -164,10 +165,18 @@ def _run_ft(init, ops, obs):
         ft = _ds.FenwickTree(init)
         arr = [0] * init
     else:
-        ft = _ds.FenwickTree(list(init))
+        given = list(init)  # the caller's own list object
+        ft = _ds.FenwickTree(given)
         arr = list(init)
         if _mon.ft_array(ft) != arr:
             obs.violate("ft.init", f"constructed from {init}, represents {_mon.ft_array(ft)}")
+        if given != arr:
+            obs.violate("ft.init-modifies-callers-list", f"list passed to the constructor became {given}, was {arr}")
+        # the tree must behave like an array that *received* the initial values: later changes to the
+        # caller's list are not point updates and must not show in any answer
+        for i in range(len(given)):
+            given[i] = 977
+        obs.event("ft.caller-list-scribbled")
     if len(ft) != len(arr):
         obs.violate("ft.len", f"{len(ft)}")
     ups = 0
